@@ -662,7 +662,18 @@ where
                             }
 
                             Poll::Ready(None) => {
-                                this.codec.encode(Message::Chunk(None), this.write_buf)?;
+                                if let Err(err) =
+                                    this.codec.encode(Message::Chunk(None), this.write_buf)
+                                {
+                                    // the body ended short of its declared size: as for a body
+                                    // error, end the connection once earlier output is written
+                                    this.flags
+                                        .insert(Flags::FINISHED | Flags::READ_DISCONNECT);
+                                    this.messages.clear();
+                                    *this.error = Some(DispatchError::Io(err));
+                                    this.state.set(State::None);
+                                    return Ok(PollResponse::DoNothing);
+                                }
 
                                 // if we have not yet pipelined to the next request, then
                                 // this.payload was the payload for the request we just finished
@@ -694,8 +705,15 @@ where
                             Poll::Ready(Some(Err(err))) => {
                                 let err = err.into();
                                 tracing::error!("Response payload stream error: {err:?}");
-                                this.flags.insert(Flags::FINISHED);
-                                return Err(DispatchError::Body(err));
+
+                                // the connection ends with this error, but only after what is
+                                // already encoded (complete earlier responses) has been written
+                                this.flags
+                                    .insert(Flags::FINISHED | Flags::READ_DISCONNECT);
+                                this.messages.clear();
+                                *this.error = Some(DispatchError::Body(err));
+                                this.state.set(State::None);
+                                return Ok(PollResponse::DoNothing);
                             }
 
                             Poll::Pending => return Ok(PollResponse::DoNothing),
@@ -720,7 +738,18 @@ where
                             }
 
                             Poll::Ready(None) => {
-                                this.codec.encode(Message::Chunk(None), this.write_buf)?;
+                                if let Err(err) =
+                                    this.codec.encode(Message::Chunk(None), this.write_buf)
+                                {
+                                    // the body ended short of its declared size: as for a body
+                                    // error, end the connection once earlier output is written
+                                    this.flags
+                                        .insert(Flags::FINISHED | Flags::READ_DISCONNECT);
+                                    this.messages.clear();
+                                    *this.error = Some(DispatchError::Io(err));
+                                    this.state.set(State::None);
+                                    return Ok(PollResponse::DoNothing);
+                                }
 
                                 // if we have not yet pipelined to the next request, then
                                 // this.payload was the payload for the request we just finished
@@ -751,10 +780,16 @@ where
 
                             Poll::Ready(Some(Err(err))) => {
                                 tracing::error!("Response payload stream error: {err:?}");
-                                this.flags.insert(Flags::FINISHED);
-                                return Err(DispatchError::Body(
+
+                                // see above: flush what is already encoded, then end with the error
+                                this.flags
+                                    .insert(Flags::FINISHED | Flags::READ_DISCONNECT);
+                                this.messages.clear();
+                                *this.error = Some(DispatchError::Body(
                                     Error::new_body().with_cause(err).into(),
                                 ));
+                                this.state.set(State::None);
+                                return Ok(PollResponse::DoNothing);
                             }
 
                             Poll::Pending => return Ok(PollResponse::DoNothing),
